@@ -223,19 +223,39 @@ class Verifier:
             self.assume_invariants(ip, o, label)
         return o
 
-    def assume_invariants(self, ip, o, label):
+    def invariant_terms(self, ip, o):
         ho = ip.ctx.obj(o)
         clss = [ho.clsname()]
         if isinstance(ho.cls, ClassInfo):
             clss = [c.qual for c in self.repo.mro(ho.cls) if isinstance(c, ClassInfo)]
+        out = []
         for cq in clss:
             for cl in self.reg.invariants.get(cq, []):
                 fr = Frame(None, ho.cls.module if isinstance(ho.cls, ClassInfo) else None, {"self": o})
-                v = ip.truth(ip.eval(cl.expr_ast, fr, True))
-                ip.ctx.assume(v)
+                out.append((cl, ip.truth(ip.eval(cl.expr_ast, fr, True))))
+        return out
+
+    def assume_invariants(self, ip, o, label):
+        for cl, v in self.invariant_terms(ip, o):
+            ip.ctx.assume(v)
 
     # ---- contract application at call sites (modular step) -------------------------------------------
     def callee_env(self, ip, c, finfo, args, kwargs):
+        ghost = {k[len("_ghost_"):]: v for k, v in kwargs.items() if k.startswith("_ghost_")}
+        kwargs = {k: v for k, v in kwargs.items() if not k.startswith("_ghost_")}
+        env = self.callee_env0(ip, c, finfo, args, kwargs)
+        for gname in c.ghost_params:
+            if gname not in ghost:
+                raise ContractError("call of %s needs ghost argument _ghost_%s" % (c.qual, gname))
+            env[gname] = ghost[gname]
+        for target, expr in c.binds:
+            tnode = ast.parse(target, mode="eval").body
+            if isinstance(tnode, ast.Name):
+                fr = Frame(None, finfo.module if finfo is not None else None, dict(env))
+                env[tnode.id] = ip.eval(ast.parse(expr, mode="eval").body, fr, True)
+        return env
+
+    def callee_env0(self, ip, c, finfo, args, kwargs):
         if finfo is not None:
             return ip.bind_args(finfo, args, kwargs, finfo.module)
         names = list(c.param_types.keys())
@@ -269,6 +289,11 @@ class Verifier:
                 g = ip.truth(ip.eval(cl.expr_ast, fr, True))
                 self.oblige(ip, "%s/pre:%s" % (site, cl.name), "callpre", cl, g)
                 ctx.assume(g)
+            for n, t in c.param_types.items():
+                if t.startswith("obj:") and isinstance(env.get(n), SObj) and not c.abstract_flag:
+                    for (cl, g) in self.invariant_terms(ip, env[n]):
+                        self.oblige(ip, "%s/pre-inv:%s:%s" % (site, n, cl.name), "callpre", cl, g)
+                        ctx.assume(g)
             if c.measure is not None and self.cur_contract is not None and c.qual == self.cur_contract.qual \
                     and self.cur_measure is not None:
                 m = I(ip.eval(ast.parse(c.measure, mode="eval").body, fr, True))
@@ -307,6 +332,8 @@ class Verifier:
                     w = True
                 if self.definitional(ip, cl, fr):
                     continue
+                if "spec.entropy_calls" in cl.expr or "spec.entropy_only_via" in cl.expr:
+                    continue      # statements about the execution log of the callee itself, not about state
                 g = ip.truth(ip.eval(cl.expr_ast, fr, True))
                 if not isinstance(w, bool):
                     g = mkbool(z3.Implies(w.t, Bo(g)))
@@ -354,7 +381,9 @@ class Verifier:
             return isinstance(v, (SEntropy, SFunc))
         if t == "bytelist":
             return isinstance(v, SByteList)
-        if t.startswith("dict:") or t.startswith("jsonbytes:") or t == "any" or t.startswith("class:") or t.startswith("spec:"):
+        if t.startswith("jsonbytes:"):
+            return isinstance(v, SOpaque) and v.kind == "jsonbytes"
+        if t.startswith("dict:") or t == "any" or t.startswith("class:") or t.startswith("spec:"):
             return True
         if t == "none":
             return v is None
@@ -373,7 +402,19 @@ class Verifier:
                 raise ContractError("writes %s: no shape for field" % w)
             ho.fields.pop(field, None)
             ho.present.pop(field, None)
-            ho.fields[field] = self.mkval(ip, t, "havoc.%s.%d" % (field, len(ip.ctx.writes)))
+            ts, owner = t
+            optional = ts.endswith("?")
+            if optional:
+                ts = ts[:-1]
+            lab = "havoc.%s.%d" % (field, len(ip.ctx.writes))
+            self._skip_inv = True
+            try:
+                ho.fields[field] = self.mkval(ip, (ts, owner), lab)
+            finally:
+                self._skip_inv = False
+            if optional:
+                ho.present[field] = z3.Bool("has." + lab)
+            ho.absent.discard(field)
             ip.ctx.writes.append((o.oid, field))
 
     def callee_entropy(self, ip, c, env, fr):
@@ -623,6 +664,11 @@ class Verifier:
             rep.errors.append("no contract")
             return rep
         finfo = self.repo.find_function(qual)
+        if qual in self.reg.ghosts:
+            modname, src = self.reg.ghosts[qual]
+            node = ast.parse(src).body[0]
+            finfo = FunctionInfo(self.repo.modules[modname], qual, node)
+            finfo.ghost = True
         if finfo is None:
             rep.errors.append("function %s not found in the repository source" % qual)
             return rep
@@ -719,8 +765,9 @@ class Verifier:
         ip.ctx.assume(ip.truth(ip.eval(ast.parse(expr, mode="eval").body, fr, True)))
 
     def build_inputs(self, ip, c, finfo, case):
-        names = finfo.params()
+        names = finfo.params() + [g for g in c.ghost_params if g not in finfo.params()]
         types = dict(c.param_types)
+        types.update(c.ghost_params)
         if case:
             types.update(case)
         env = {}
@@ -732,7 +779,11 @@ class Verifier:
                 fr = Frame(None, finfo.module, {})
                 env[n] = ip.eval(finfo.defaults()[n], fr, False)
             else:
-                env[n] = self.mkval(ip, t, n)
+                self._skip_inv = (c.setup_code == "fresh_self" and n == "self")
+                try:
+                    env[n] = self.mkval(ip, t, n)
+                finally:
+                    self._skip_inv = False
         for target, expr in c.binds:
             fr = Frame(None, finfo.module, dict(env))
             v = ip.eval(ast.parse(expr, mode="eval").body, fr, True)
@@ -886,3 +937,16 @@ INLINE_OK = set()
 SINGLETONS = {}
 CANON_GLOBALS = {}
 SETUP_FUNCS = {}
+
+
+def _fresh_self(verifier, ip, env):
+    """__init__ harness: `self` is a freshly allocated object without any attribute"""
+    o = env["self"]
+    ho = ip.ctx.obj(o)
+    ho.lazy = False
+    ho.fields.clear()
+    ho.present.clear()
+    ho.fresh = False
+
+
+SETUP_FUNCS["fresh_self"] = _fresh_self
